@@ -430,10 +430,80 @@ fn gen_chunked() -> BoxedStrategy<Value> {
         .boxed()
 }
 
+
+// ------------------------------------------------------------------------------------------------ files named like the texts
+
+const DECOY_NAMES: &[&str] = &["data.json", "@data.json", "rule.json", "null", "1", "x", "nul", "{", "[1", "true", "\"a\"", "a.json", "@-", "input", "{\"a\":1}x"];
+
+fn decoy_dir() -> Result<String, String> {
+    static DIR: std::sync::Mutex<Option<String>> = std::sync::Mutex::new(None);
+    let mut g = DIR.lock().unwrap();
+    if let Some(d) = &*g {
+        return Ok(d.clone());
+    }
+    let root = std::env::var("JLV_ROOT").unwrap_or_else(|_| ".".into());
+    let dir = format!("{}/target/cli-decoys", root);
+    std::fs::create_dir_all(&dir).map_err(|e| format!("oracle_broken: cannot create {}: {}", dir, e))?;
+    for n in DECOY_NAMES {
+        std::fs::write(format!("{}/{}", dir, n), "{\"cat\":[\"FROM-A-FILE\"]}").map_err(|e| format!("oracle_broken: cannot write decoy file {:?}: {}", n, e))?;
+    }
+    *g = Some(dir.clone());
+    Ok(dir)
+}
+
+/// The arguments are texts, never file names: with files named like the argument (each holding a valid rule) in the
+/// working directory, the command must still do exactly what the library does with the argument as text.
+fn check_file_decoys(case: &Value, obs: &mut Obs) -> Result<(), String> {
+    let name = case["name"].as_str().unwrap_or("x");
+    let profile = if case["release"].as_bool().unwrap_or(false) { "release" } else { "dev" };
+    let bin = match cli::bin(profile) {
+        Some(b) => b,
+        None => return Err("oracle_broken: CLI binary missing".into()),
+    };
+    let dir = decoy_dir()?;
+    let env = cli::Env { clear: false, vars: vec![], cwd: dir };
+    let as_data = case["as_data"].as_bool().unwrap_or(true);
+    let (rule_text, data_text) = if as_data { ("{\"var\":\"\"}".to_string(), name.to_string()) } else { (name.to_string(), "null".to_string()) };
+    let want = library(&rule_text, &data_text, obs)?;
+    let mut channels = vec![("argument", Channel::Arg(data_text.clone()))];
+    if as_data {
+        channels.push(("stdin without argument", Channel::StdinNoArg(data_text.clone())));
+    }
+    for (cname, ch) in &channels {
+        let out = cli::run_env(&bin, &rule_text, ch, Some(&env))?;
+        obs.evals += 1;
+        compare(&out, &want, &format!("{}, data by {}, working directory holding a file named {:?}", profile, cname, name), &rule_text, &data_text)?;
+    }
+    obs.nt(if as_data { "data argument named like a file" } else { "rule argument named like a file" });
+    Ok(())
+}
+
+fn fixed_file_decoys() -> Vec<Value> {
+    let mut out = vec![];
+    for (i, n) in DECOY_NAMES.iter().enumerate() {
+        for as_data in [true, false] {
+            out.push(json!({"name": n, "as_data": as_data, "release": (i % 2 == 0) == as_data}));
+        }
+    }
+    out
+}
+
 pub fn property() -> Property {
     Property {
         id: "C18",
         subs: vec![
+            Sub {
+                name: "file_decoys",
+                about: "the arguments are texts, never file names: the command runs in a working directory that holds files named exactly like the argument (data.json, @data.json, rule.json, null, 1, x, nul, {, [1, true, ... - each containing a valid rule) and must still do what the library does with the argument as text, as data argument, as rule argument and with the same text on stdin.",
+                nontrivial: "every case.",
+                strategy: None,
+                fixed: Some(fixed_file_decoys),
+                fixed_exhaustive: true,
+                check: check_file_decoys,
+                quick: 0,
+                thorough: 0,
+                small_stack: false,
+            },
             Sub {
                 name: "corner_texts",
                 about: "40 hand-picked (rule text, data text) pairs - leading minus signs, surrounding whitespace, empty texts, astral characters raw and as surrogate escapes, log rules, failing rules, number spellings (1e0, 1.0, beyond u64), duplicate keys, bare words, BOM, trailing commas, lone surrogate, option look-alikes inside strings, depth 127 and 129 - through dev and release binaries x three data channels against the in-process library.",
